@@ -17,6 +17,7 @@ Traces == JsonDeserialize(IOEnv.WV_TRACES)
 VARIABLES tid, l, st, verdict
 
 TFollow == [t \in Tasks |-> IF t = 3 THEN 5 ELSE IF t = 4 THEN 6 ELSE 0]
+TWaits == [t \in Tasks |-> IF t = 7 THEN 8 ELSE 0]
 
 Mon0 == [q |-> <<>>, holder |-> [t \in Tasks |-> <<"-", 0>>], ran |-> [t \in Tasks |-> 0],
          canc |-> [t \in Tasks |-> 0], requested |-> 0, quiet |-> FALSE, sdStarted |-> FALSE]
